@@ -128,7 +128,7 @@ class EnabledHarness:
         v = []
         for layer in ("py", "df", "cf", "st"):
             v += [(f"{layer}_present", "bool"), (f"{layer}_value", "bool")]
-        return v + [("cli_e", "bool"), ("cli_d", "bool"), ("py_other", "bool"), ("df_other_present", "bool"), ("df_other", "bool")]
+        return v + [("cli_e", "bool"), ("cli_d", "bool"), ("cli_list", "bool"), ("py_other", "bool"), ("df_other_present", "bool"), ("df_other", "bool")]
 
     OTHER = "md047"  # a second rule mentioned only by some layers
 
@@ -145,7 +145,9 @@ class EnabledHarness:
         errors = []
         ApplicationConfigurationHelper.apply_configuration_layers(args, props, lambda m, e=None: errors.append(m))
         pm = PluginManager(Pres())
-        pm.initialize(env.plugin_dir(), [], self.name if v["cli_e"] else "", self.name if v["cli_d"] else "", props, False, False)
+        # cli_list: the identifier is the second element of a comma separated list, written with a blank after the comma
+        cli_name = ("md998, " + self.name) if v["cli_list"] else self.name
+        pm.initialize(env.plugin_dir(), [], cli_name if v["cli_e"] else "", cli_name if v["cli_d"] else "", props, False, False)
         pm.apply_configuration(props)
         enabled = False
         other = False
